@@ -414,7 +414,11 @@ def raise_site(exc):
         fn = os.path.abspath(fr.f_code.co_filename)
         if fn.startswith(root):
             slf = fr.f_locals.get('self')
-            if slf is not None:
+            if fn.endswith(os.path.join('operator', 'operator.py')) and \
+                    fr.f_code.co_name == '__call__':
+                # the public call itself: keep the base-class name
+                site = 'Operator.__call__@' + type(slf).__name__
+            elif slf is not None:
                 site = '{}.{}'.format(type(slf).__name__, fr.f_code.co_name)
             else:
                 site = '{}:{}'.format(
